@@ -7,6 +7,7 @@ import (
 	"fmt"
 	"net/url"
 	"reflect"
+	"sort"
 	"strings"
 	"testing"
 	"time"
@@ -77,6 +78,85 @@ type regSnap struct {
 	cfgs  []otp.SuiteConfig
 }
 
+// renderDeep writes a canonical text of a value of any shape: maps in key order, pointers followed (not printed as
+// addresses), unexported fields included. The registry is observed through the hook VerifRegistry, which hands out the
+// package's own variable as an untyped value, so the comparison works whatever concrete type the registry has.
+func renderDeep(sb *strings.Builder, v reflect.Value, depth int) {
+	if depth > 12 {
+		sb.WriteString("<deep>")
+		return
+	}
+	switch v.Kind() {
+	case reflect.Invalid:
+		sb.WriteString("<nil>")
+	case reflect.Interface, reflect.Pointer:
+		if v.IsNil() {
+			sb.WriteString("<nil>")
+			return
+		}
+		sb.WriteString("&")
+		renderDeep(sb, v.Elem(), depth+1)
+	case reflect.Map:
+		type kv struct {
+			k string
+			v reflect.Value
+		}
+		var es []kv
+		for it := v.MapRange(); it.Next(); {
+			var kb strings.Builder
+			renderDeep(&kb, it.Key(), depth+1)
+			es = append(es, kv{kb.String(), it.Value()})
+		}
+		sort.Slice(es, func(i, j int) bool { return es[i].k < es[j].k })
+		sb.WriteString("map[")
+		for _, e := range es {
+			sb.WriteString(e.k + ":")
+			renderDeep(sb, e.v, depth+1)
+			sb.WriteString(";")
+		}
+		sb.WriteString("]")
+	case reflect.Slice, reflect.Array:
+		if v.Kind() == reflect.Slice && v.IsNil() {
+			sb.WriteString("nil")
+		}
+		sb.WriteString("[")
+		for i := 0; i < v.Len(); i++ {
+			renderDeep(sb, v.Index(i), depth+1)
+			sb.WriteString(",")
+		}
+		sb.WriteString("]")
+	case reflect.Struct:
+		sb.WriteString(v.Type().Name() + "{")
+		for i := 0; i < v.NumField(); i++ {
+			sb.WriteString(v.Type().Field(i).Name + "=")
+			renderDeep(sb, v.Field(i), depth+1)
+			sb.WriteString(",")
+		}
+		sb.WriteString("}")
+	case reflect.String:
+		fmt.Fprintf(sb, "%q", v.String())
+	case reflect.Bool:
+		fmt.Fprint(sb, v.Bool())
+	case reflect.Int, reflect.Int8, reflect.Int16, reflect.Int32, reflect.Int64:
+		fmt.Fprint(sb, v.Int())
+	case reflect.Uint, reflect.Uint8, reflect.Uint16, reflect.Uint32, reflect.Uint64, reflect.Uintptr:
+		fmt.Fprint(sb, v.Uint())
+	case reflect.Float32, reflect.Float64:
+		fmt.Fprint(sb, v.Float())
+	case reflect.Func, reflect.Chan, reflect.UnsafePointer:
+		fmt.Fprintf(sb, "<%s nil=%v>", v.Kind(), v.IsNil())
+	default:
+		fmt.Fprintf(sb, "<%s>", v.Kind())
+	}
+}
+
+// registryText is the complete content of the library's registry variable, read directly (no accessor runs).
+func registryText() string {
+	var sb strings.Builder
+	renderDeep(&sb, reflect.ValueOf(otp.VerifRegistry()), 0)
+	return sb.String()
+}
+
 func snapRegistry() regSnap {
 	if inChild {
 		return regSnap{}
@@ -91,7 +171,8 @@ func snapRegistry() regSnap {
 }
 
 var (
-	baseRegistry = snapRegistry()
+	baseRegistryText = registryText() // taken before any accessor has run: initialised ahead of baseRegistry
+	baseRegistry     = snapRegistry()
 	baseHOTP     = *otp.DefaultHOTPParam
 	baseTOTP     = *otp.DefaultTOTPParam
 	ptrHOTP      = otp.DefaultHOTPParam
@@ -111,7 +192,29 @@ func globalsIntact() error {
 	if now := snapRegistry(); !reflect.DeepEqual(now, baseRegistry) {
 		return fmt.Errorf("the suite registry changed")
 	}
+	if now := registryText(); now != baseRegistryText {
+		return fmt.Errorf("the suite registry variable itself changed (read through the hook, no accessor involved): %s", firstDiff(baseRegistryText, now))
+	}
 	return nil
+}
+
+func firstDiff(a, b string) string {
+	i := 0
+	for i < len(a) && i < len(b) && a[i] == b[i] {
+		i++
+	}
+	lo := i - 60
+	if lo < 0 {
+		lo = 0
+	}
+	cut := func(s string) string {
+		hi := i + 60
+		if hi > len(s) {
+			hi = len(s)
+		}
+		return s[lo:hi]
+	}
+	return fmt.Sprintf("was ...%s..., is ...%s...", cut(a), cut(b))
 }
 
 // restoreGlobals puts the defaults back after a detected violation so that later
@@ -119,9 +222,23 @@ func globalsIntact() error {
 func restoreGlobals() {
 	otp.DefaultHOTPParam, otp.DefaultTOTPParam = ptrHOTP, ptrTOTP
 	*otp.DefaultHOTPParam, *otp.DefaultTOTPParam = baseHOTP, baseTOTP
+	baseRegistryText = registryText() // the registry cannot be put back from outside: later cases are judged against its present state
 }
 
 const c12Secret = "GEZDGNBVGY3TQOJQGEZDGNBVGY3TQOJQ"
+const c12Key = "12345678901234567890"
+
+// c12Code: the right code of the step's HOTP / TOTP parameters at the given counter in half of the steps, else a wrong one.
+func c12Code(st c12Step, counter uint64) string {
+	d, a := st.Digits, st.Algo
+	if st.NilP {
+		d, a = 6, 0
+	}
+	if (st.U>>41)%2 == 0 && d >= 1 && d <= 10 && a >= 0 && a <= 2 {
+		return ref.MustHOTP([]byte(c12Key), counter, d, a)
+	}
+	return "123456"
+}
 
 func checkC12(c c12Case) verdict {
 	type retained struct {
@@ -172,7 +289,18 @@ func checkC12(c c12Case) verdict {
 				labels = append(labels, "admitted")
 			}
 		case "ValidateOCRA":
-			otp.ValidateOCRA(c12Secret, "000000", lc, in)
+			// half of the calls submit the code the reference computes for this very input (an accepting validation
+			// is the path on which a library would "consume" a counter), the rest a wrong code
+			code := "000000"
+			if st.U%2 == 0 {
+				cp := func(b []byte) []byte { return append([]byte(nil), b...) }
+				if want, err := ref.OCRA([]byte(c12Key), st.Cfg, ref.OCRAIn{C: cp(fields[0]), Q: cp(fields[1]), P: cp(fields[2]), S: cp(fields[3]), T: cp(fields[4])}); err == nil {
+					code = want
+				}
+			}
+			if okk, _ := otp.ValidateOCRA(c12Secret, code, lc, in); okk {
+				labels = append(labels, "accepted")
+			}
 		case "OCRAInput.Validate":
 			_ = in.Validate(lc)
 		case "GenerateHOTP":
@@ -180,13 +308,21 @@ func checkC12(c c12Case) verdict {
 				keep(code, "HOTP code")
 			}
 		case "ValidateHOTP":
-			otp.ValidateHOTP(c12Secret, "123456", st.U, param)
+			if okk, _ := otp.ValidateHOTP(c12Secret, c12Code(st, st.U), st.U, param); okk {
+				labels = append(labels, "accepted")
+			}
 		case "GenerateTOTP":
 			if code, err := otp.GenerateTOTP(c12Secret, time.Unix(int64(st.U%(1<<40)), 0), param); err == nil {
 				keep(code, "TOTP code")
 			}
 		case "ValidateTOTP":
-			otp.ValidateTOTP(c12Secret, "123456", time.Unix(int64(st.U%(1<<40)), 0), param)
+			per := st.Period
+			if st.NilP || per == 0 {
+				per = 30
+			}
+			if okk, _ := otp.ValidateTOTP(c12Secret, c12Code(st, (st.U%(1<<40))/per), time.Unix(int64(st.U%(1<<40)), 0), param); okk {
+				labels = append(labels, "accepted")
+			}
 		case "GenerateTOTPURL", "GenerateHOTPURL":
 			up := otp.URLParam{Issuer: "Iss uer", AccountName: st.Text + "@x", Secret: c12Secret, Period: uint(st.Period), Digits: otp.Digits(st.Digits), Algorithm: otp.Algorithm(st.Algo % 3)}
 			upCopy := up
@@ -319,7 +455,7 @@ func checkC12(c c12Case) verdict {
 }
 
 var c12Main = newPart("C12", "histories",
-	"rapid: histories of 1..12 calls over all operations taking slices, pointers or structs (GenerateOCRA, ValidateOCRA, OCRAInput.Validate, Generate/Validate HOTP/TOTP with *Param incl. nil and period 0, Generate{TOTP,HOTP}URL, ParseOTPAuthURL, NewSuite, registry lookups with scribbling over returned values, helper results, the padding helper through its hook); every OCRA byte field presented as len==cap, as a prefix of a larger array whose spare capacity holds canary bytes, or as a middle sub-slice, lengths {nil,0,1,7,8,9,127,128,129} or random 0..140; oracle: byte-wise equality of full backing arrays (incl. capacity behind the length), Param / SuiteConfig / URLParam / url.URL copies, DefaultHOTPParam, DefaultTOTPParam (values and pointers) and the whole suite registry before vs after every call; retained result strings compared with independent copies after every later call and after scribbling over the arguments; non-trivial = a field with spare capacity that is shorter than its pad width, or a nil-param call, or a period-0 call",
+	"rapid: histories of 1..12 calls over all operations taking slices, pointers or structs (GenerateOCRA, ValidateOCRA, OCRAInput.Validate, Generate/Validate HOTP/TOTP with *Param incl. nil and period 0, Generate{TOTP,HOTP}URL, ParseOTPAuthURL, NewSuite, registry lookups with scribbling over returned values, helper results, the padding helper through its hook); every OCRA byte field presented as len==cap, as a prefix of a larger array whose spare capacity holds canary bytes, or as a middle sub-slice, lengths {nil,0,1,7,8,9,127,128,129} or random 0..140; oracle: byte-wise equality of full backing arrays (incl. capacity behind the length), Param / SuiteConfig / URLParam / url.URL copies, DefaultHOTPParam, DefaultTOTPParam (values and pointers) and the whole suite registry — through its accessors and, read directly through the hook VerifRegistry, the package variable itself rendered deeply whatever its type — before vs after every call; validation steps submit the reference's correct code in half of the cases (the accepting path); retained result strings compared with independent copies after every later call and after scribbling over the arguments; non-trivial = a field with spare capacity that is shorter than its pad width, or a nil-param call, or a period-0 call",
 	checkC12)
 
 var c12Ops = []string{"GenerateOCRA", "GenerateOCRA", "GenerateOCRA", "ValidateOCRA", "OCRAInput.Validate", "GenerateHOTP", "ValidateHOTP", "GenerateTOTP", "GenerateTOTP", "ValidateTOTP", "ValidateTOTP",
